@@ -30,7 +30,7 @@ fn floors(t: Tier) -> Vec<(String, u64)> {
     if t == Tier::Miri {
         return vec![("prefix.ok".into(), 20)];
     }
-    vec![("prefix.ok".into(), 10_000), ("sequence.ok".into(), 5000), ("overwrite.events".into(), 20_000), ("overwrite.on_length_field".into(), 20_000), ("item.msg".into(), 3000), ("item.avp".into(), 3000), ("item.data".into(), 1000)]
+    vec![("prefix.ok".into(), 10_000), ("sequence.ok".into(), 5000), ("overwrite.events".into(), 20_000), ("overwrite.on_length_field".into(), 20_000), ("item.msg".into(), 3000), ("item.avp".into(), 3000), ("item.data".into(), 1000), ("prefix.beyond_64k".into(), 500), ("sequence.beyond_64k".into(), 20)]
 }
 
 enum Val {
@@ -132,6 +132,14 @@ fn run(ctx: &mut Ctx) {
             };
             let plen = *ctx.rng.pick(&[0usize, 1, 2, 3, 5, 12, 255, 256, 300]);
             let plen = if ctx.rng.bool() { plen } else { ctx.rng.range(0, 300) as usize };
+            // now and then a writer that already holds more than 64 KiB / 16 MiB-ish offsets that
+            // do not fit 16 bits (positions are usize; nothing may assume they fit a length field)
+            let plen = if ctx.tier != Tier::Miri && ctx.rng.chance(1, 12) {
+                ctx.rep.bucket("prefix.beyond_64k");
+                *ctx.rng.pick(&[65_534usize, 65_535, 65_536, 65_537, 65_541, 70_000, 131_071, 131_072, 200_000])
+            } else {
+                plen
+            };
             let prefix = ctx.rng.bytes(plen);
             let mut key = vec![plen as u8, (plen >> 8) as u8];
             key.extend_from_slice(&alone[..alone.len().min(256)]);
@@ -162,8 +170,22 @@ fn run(ctx: &mut Ctx) {
             ctx.rep.sample(|| J::obj(vec![("prefix_octets", J::U(plen as u64)), ("value_hex", J::hex(&alone[..alone.len().min(48)]))]));
         }
         "sequence" => {
-            let k = ctx.rng.range(2, 8) as usize;
-            let vals: Vec<Val> = (0..k).map(|_| gen_val(ctx)).collect();
+            let big = ctx.tier != Tier::Miri && ctx.rng.chance(1, 40);
+            let k = if big { 12 } else { ctx.rng.range(2, 8) as usize };
+            let vals: Vec<Val> = (0..k)
+                .map(|i| {
+                    if big && i < 10 {
+                        // ten messages of about 8 KiB each: later items start beyond offset 65536
+                        ctx.rep.bucket("item.msg");
+                        Val::Msg(glue::msg_to_crate(&SMsg::Control(val::control_exact(&mut ctx.rng, 8000))).unwrap())
+                    } else {
+                        gen_val(ctx)
+                    }
+                })
+                .collect();
+            if big {
+                ctx.rep.bucket("sequence.beyond_64k");
+            }
             let mut want = Vec::new();
             for v in vals.iter() {
                 match exec::encode_items(&[], &[item(v)], Wk::Vec) {
